@@ -439,8 +439,21 @@ def leaf_contracts():
     cs.append(Contract(
         target=f"{FN}/boolean/empty.py::Empty._do_one", types={"skip": "none", "child": "obj:Matchable", "self.match": "val"},
         modifies=["self.match", "child.g_to_value_calls"],
-        ensures={"matches_iff_the_value_is_empty": "self.match == ufun_bool('is_empty', child.g_value)"},
+        ensures={"matches_iff_the_value_is_empty": "same(self.match, ufun_bool('is_empty', child.g_value))"},
         returns="none", property_clauses={"matches_iff_the_value_is_empty": "C01"}, **base))
+    # ---- empty(a, b, ...): every argument's value is empty
+    gk = "self.children[0].children[k].g_value"
+    cs.append(Contract(
+        target=f"{FN}/boolean/empty.py::Empty._do_many", types=kids, requires=["self.children[0].op == ','", "%s >= 1" % n],
+        modifies=["self.match", "self.children.0.children"],
+        ensures={"matches_iff_every_argument_is_empty": "(self.match is True) == forall_int(0, %s, lambda k: ufun_bool('is_empty', %s))" % (n, gk),
+                 "a_bool": "self.match is True or self.match is False"},
+        invariants={0: ["forall_int(0, _i0, lambda k: ufun_bool('is_empty', %s))" % gk,
+                        "implies(_i0 > 0, self.match is True)",
+                        "forall_int(lambda k: same(%s, old(%s)))" % (gk, gk)]},
+        loop_havoc={0: ["self.children.0.children[*].g_to_value_calls", "self.match"]},
+        returns="none", inline=INL + ["Matchable.siblings", "Equality.commas_to_list"],
+        property_clauses={"matches_iff_every_argument_is_empty": "C01"}, **{k: v for k, v in base.items() if k != "inline"}))
     # ---- a bare header as a match component: existence test (an empty cell does not exist), or its truth value under asbool
     HDR = "csvpath/matching/productions/header.py"
     cs.append(Contract(target=f"{HDR}::Header.to_value", interface=True, variant="as_a_value", types={"skip": "val"}, modifies=["self.g_to_value_calls"],
